@@ -50,6 +50,11 @@ func rulesC08(c *Ctx) {
 	lifeErr := mq(jobPkg, "Lifecycle", "Error")
 
 	// ---- R1 callbacks only in consumers --------------------------------------------
+	// Consumer.Loop may be split into private helpers that only it calls, synchronously
+	consGroup := map[*ssa.Function]bool{}
+	for _, g := range privateGroup(c.P, consLoop, true) {
+		consGroup[g] = true
+	}
 	n1 := 0
 	for _, f := range c.P.AllModuleFuncs() {
 		eachInstr(f, func(_ *ssa.BasicBlock, _ int, in ssa.Instruction) {
@@ -70,7 +75,7 @@ func rulesC08(c *Ctx) {
 			}
 			n1++
 			_, isCall := in.(*ssa.Call)
-			c.Check(f == consLoop && isCall, "R1", fmt.Sprintf("%s invoked in %s", nm, fname(f)), in.Pos(), "callback runs in a consumer",
+			c.Check(consGroup[f] && isCall, "R1", fmt.Sprintf("%s invoked in %s", nm, fname(f)), in.Pos(), "callback runs in a consumer",
 				"a callback is invoked outside Consumer.Loop (or asynchronously) — more callbacks run at once than the configured consumer count, and Wait does not cover it")
 		})
 	}
@@ -143,7 +148,7 @@ func rulesC08(c *Ctx) {
 			if fa, isFA := st.Addr.(*ssa.FieldAddr); isFA && strings.HasSuffix(fieldName(fa), "fsloop.Loop.consumerPool") {
 				for _, o := range Origins(st.Val, FlowOpts{}) {
 					if call, isC := o.Val.(*ssa.Call); isC && o.Kind == "call" && strings.Contains(o.Name, "jobsync.NewPool#") {
-						if hasOrigin(Origins(call.Call.Args[0], FlowOpts{}), func(x Origin) bool { return x.Kind == "field" && strings.HasSuffix(x.Name, "LoopData.Consumers") }) {
+						if hasOrigin(Origins(call.Call.Args[0], FlowOpts{Interproc: 2, LiftParams: 2}), func(x Origin) bool { return x.Kind == "field" && strings.HasSuffix(x.Name, "LoopData.Consumers") }) {
 							capOK = true
 						}
 					}
@@ -488,6 +493,17 @@ func rulesC08(c *Ctx) {
 					}
 					if dominates(stepCall, lc) {
 						empties++
+					}
+				}
+				// the emptiness test may live in a private predicate called after the step was read
+				for k := range facts.At(b) {
+					if call, ok := k.v.(*ssa.Call); ok && k.pol && dominates(stepCall, call) {
+						if h := call.Call.StaticCallee(); h != nil && h.Pkg == consLoop.Pkg && h.Blocks != nil {
+							te := trueImpliesEmpty(h)
+							if te["dirChan"] && te["fileChan"] {
+								empties = 2
+							}
+						}
 					}
 				}
 				c.Check(empties >= 2, "R6", con, r.Pos(), "both queues observed empty after the close step was read",
